@@ -109,8 +109,16 @@ def flatten_c10(events):
     """events of ONE C10 run (reset ... end) -> flat records of BOTH endpoints for Trace_LifecyclePair."""
     out = []
     closing = False
+    moved = None    # reneg = moved: the label of the endpoint that has been replaced by a fresh one
     for e in events:
         comp, ev = e.get("comp"), e.get("ev")
+        if comp == "life" and ev == "moved":
+            moved = e.get("inst")
+            continue
+        if moved and comp == "pc" and e.get("inst") == moved and ev != "sig":
+            # start-up of the fresh endpoint: judged through the four commits, `reneg.still_connected` (it has to
+            # report Connected) and the per-medium delivery of the second round
+            continue
         if comp == "life" and ev == "reset":
             sc = e["scenario"]
             c = sc["cfg"]
